@@ -40,7 +40,6 @@ UNITS = {
 }
 ASSUMED = [
     # (unit regex, src fn regex, object regex, kind regex, name)
-    (r"^src_list$", r".", r"^local months$", r"^load$", "A-libc-tm"),
     (r"^decoder$", r"^(lha_decoder_read|lha_crc16_buf)$", r"^param 1$", r".", "A-decoder-clamp"),
     (r"^header$", r".", r"^heap$", r".", "A-rawdata"),
 ]
@@ -83,6 +82,8 @@ def _worker(args):
                 chain = [l.get("fn") or "" for l in (o.inst.loc or [])] or [o.inst.src_fn() or ""]     # a helper extracted from a listed function is that function's code
                 if re.search(un, unit_name) and any(re.search(src, c) for c in chain) and re.search(obj, o.desc) and re.search(kind, o.kind):
                     cls = "assumed:" + name
+            if cls is None and o.kind == "load" and _tm_mon_indexed(o):
+                cls = "assumed:A-libc-tm"
             if cls is None:
                 cls = "unknown-extent" if o.ok is None else "UNPROVEN"
         cnt[cls] += 1
@@ -93,6 +94,37 @@ def _worker(args):
     out["counts"] = dict(cnt)
     out["candidates"] = {"%s.%s" % k: v for k, v in cands.items()}
     return out
+
+
+def _tm_mon_indexed(o):
+    """a table of at least twelve entries indexed by nothing but the tm_mon member of a struct tm (whatever the table is called, wherever it lives)"""
+    fn = o.inst.fn
+    mod = fn.mod
+    if o.size is None or not isinstance(o.size, int) or not o.width or o.size < 12 * o.width:
+        return False
+    d = fn.defn(o.inst.ops[0])
+    for _ in range(4):
+        if d is None or d.is_param:
+            return False
+        if d.op == "bitcast":
+            d = fn.defn(d.ops[0])
+            continue
+        break
+    if d is None or d.is_param or d.op != "getelementptr":
+        return False
+    idx = [st["idx"] for st in d.steps if st["k"] in ("arr", "ptr") and st["idx"][0] != "ci"]
+    if len(idx) != 1:
+        return False
+    x = fn.defn(idx[0])
+    while x is not None and not x.is_param and x.op in ("sext", "zext"):
+        x = fn.defn(x.ops[0])
+    if x is None or x.is_param or x.op != "load":
+        return False
+    g = fn.defn(x.ops[0])
+    if g is None or g.is_param or g.op != "getelementptr":
+        return False
+    fs = [st for st in g.steps if st["k"] == "field"]
+    return len(fs) == 1 and mod.struct_cname(fs[0]["struct"]) == "tm" and mod.field_name(fs[0]["struct"], fs[0]["field"]) == "tm_mon"
 
 
 def _sconst(o):
@@ -165,6 +197,134 @@ def _descending_cursor(ctx, mod, fn, M, inst, addr):
         if y == a0 and x == base and f[0] in ("ule", "ult", "sle", "slt"):
             return True
     return False
+
+
+
+# ---- R6: unbounded string writers into objects of known extent -------------------------------------------------------------------------
+UNBOUNDED_WRITERS = {"sprintf": 1, "vsprintf": 1, "strcpy": None, "strcat": None, "stpcpy": None, "gets": None}
+_CONV = re.compile(r"%([-+ #0]*)(\*|\d+)?(?:\.(\*|\d+))?(hh|h|ll|l|j|z|t|L)?([diouxXeEfFgGaAcspn%])")
+
+
+def format_max_len(fmt, string_arg_len=None):
+    """largest number of bytes (without the NUL) a printf format can produce, or None when it has no bound
+    (a %s without precision whose argument length is unknown, a '*' width, any floating conversion: a double prints up to 310 digits)"""
+    n, pos = 0, 0
+    k = 0
+    for m in _CONV.finditer(fmt):
+        n += len(fmt[pos:m.start()].replace("%%", "%"))
+        pos = m.end()
+        flags, width, prec, length, conv = m.groups()
+        if conv == "%":
+            n += 1
+            continue
+        if width == "*" or prec == "*":
+            return None
+        w = int(width) if width else 0
+        if conv == "c":
+            body = 1
+        elif conv in "di":
+            body = 20 if length in ("l", "ll", "j", "z", "t") else 11
+        elif conv in "u":
+            body = 20 if length in ("l", "ll", "j", "z", "t") else 10
+        elif conv in "xX":
+            body = (16 if length in ("l", "ll", "j", "z", "t") else 8) + (2 if "#" in flags else 0)
+        elif conv == "o":
+            body = (22 if length in ("l", "ll", "j", "z", "t") else 11) + 1
+        elif conv == "s":
+            if prec is not None:
+                body = int(prec)
+            elif string_arg_len is not None and string_arg_len(k) is not None:
+                body = string_arg_len(k)
+            else:
+                return None
+        elif conv == "p":
+            body = 18
+        else:
+            return None                 # e f g a: no useful bound; n: writes
+        if prec is not None and conv in "diouxX":
+            body = max(body, int(prec) + 1)
+        n += max(w, body)
+        k += 1
+    n += len(fmt[pos:])
+    return n
+
+
+def dest_extent(mod, fn, op):
+    """bytes from the destination pointer to the end of the object it points into, when that object has a known extent
+    (a local, a global, an array field of a struct); None for heap blocks and strings of unknown extent"""
+    off = 0
+    for _ in range(32):
+        d = fn.defn(op)
+        if d is None:
+            if op[0] == "gv":
+                g = mod.globals.get(op[1])
+                return (g["size"] - off) if g and g.get("size") else None
+            return None
+        if d.is_param:
+            return None
+        if d.op == "bitcast":
+            op = d.ops[0]
+            continue
+        if d.op == "getelementptr":
+            steps = d.steps
+            c = 0
+            for i, st in enumerate(steps):
+                if st["k"] == "field":
+                    c += st["off"]
+                    fsz = mod.types[st["struct"]]["fields"][st["field"]]["size"]
+                    rest = steps[i + 1:]
+                    if all(x["k"] in ("arr", "ptr") and x["idx"][0] == "ci" for x in rest):
+                        inner = sum(x["idx"][1] * x["el_size"] for x in rest)
+                        # an array member: the extent is the member's, whatever lies above
+                        if mod.types[st["struct"]]["fields"][st["field"]].get("ty", "").startswith("["):
+                            return fsz - inner - off
+                elif st["k"] in ("arr", "ptr"):
+                    if st["idx"][0] != "ci":
+                        return None
+                    c += st["idx"][1] * st["el_size"]
+                else:
+                    return None
+            off += c
+            op = d.ops[0]
+            continue
+        if d.op == "alloca":
+            sz = d.d.get("alloc_size")
+            return (sz - off) if sz is not None else None
+        return None
+    return None
+
+
+def string_writer_sites(mod):
+    """(function, call, extent, max_len or None, ok) for every sprintf / strcpy / strcat ... whose destination has a known extent"""
+    out = []
+    for f in mod.defined():
+        for c in f.insts():
+            if c.op != "call":
+                continue
+            nm = mod.callee_cname(c)
+            if nm not in UNBOUNDED_WRITERS:
+                continue
+            ext = dest_extent(mod, f, c.ops[0])
+            if ext is None:
+                out.append((f, c, None, None, None))
+                continue
+            mx = None
+            if nm in ("sprintf",):
+                fmt = mod.const_string(c.ops[1]) if len(c.ops) > 1 else None
+                if fmt is not None:
+                    fmt = fmt.split(b"\0")[0].decode("latin-1")
+
+                    def arglen(k, c=c, f=f):
+                        a = c.ops[2 + k] if len(c.ops) > 2 + k else None
+                        lit = mod.const_string(a) if a is not None else None
+                        return len(lit.split(b"\0")[0]) if lit is not None else None
+                    mx = format_max_len(fmt, arglen)
+            elif nm in ("strcpy", "stpcpy"):
+                lit = mod.const_string(c.ops[1]) if len(c.ops) > 1 else None
+                mx = len(lit.split(b"\0")[0]) if lit is not None else None
+            # strcat needs the length already there; gets and vsprintf have no bound at all
+            out.append((f, c, ext, mx, mx is not None and mx + 1 <= ext))
+    return out
 
 
 def end_index_accesses(ctx, mod):
@@ -515,6 +675,20 @@ def run(tier, seed):
                           function=hf.cname, obj="refcount")
 
         # ---- R5 nullable strings ---------------------------------------------------------------------------------------
+        # ---- R6 ----
+        rid = rep.rule("R6", "sprintf / vsprintf / strcpy / strcat / gets write into an object of known extent (a local, a global, an array member) only when the "
+                             "longest output the format or source can produce, plus the NUL, fits", 0)
+        nsw = collections.Counter()
+        for f, c, ext, mx, ok in string_writer_sites(mod):
+            nm = mod.callee_cname(c)
+            if ext is None:
+                nsw["heap-or-unknown"] += 1
+                continue
+            nsw["known-extent"] += 1
+            rep.check(rid, bool(ok), "%s: %s into %d bytes" % (f.cname, nm, ext), c.where(),
+                      None if ok else ("the output has no static bound (a string conversion without precision, a floating conversion, a variable source)" if mx is None
+                                       else "up to %d bytes plus NUL" % mx), function=f.cname, obj=nm)
+        rep.extra["string_writers"] = dict(nsw)
         rid = rep.rule("R5", "nullable header strings (path, filename, symlink_target, unix_username, unix_group) are used as strings only under a non-NULL fact", 25)
         LISTED = {
             ("is_macbinary_header", "filename"): "MacBinary detection runs for file members only (open_decoder requires a NORMAL entry that is decoded; C12.R5: a file entry always has a name)",
